@@ -3,10 +3,11 @@
 set -u
 V=$(cd "$(dirname "$0")/.." && pwd)
 D=$V/seeded/$1; B=$2; shift 2
-cd /repo || exit 2
+R=${VERIF_REPO:-/repo}
+cd $R || exit 2
 if [ -n "$(git status --porcelain)" ]; then echo "/repo not clean"; exit 2; fi
 git apply $D/patch.diff || { echo "patch does not apply"; exit 2; }
-trap 'git -C /repo checkout -- . ; git -C /repo clean -fdq' EXIT
+trap 'git -C $R checkout -- . ; git -C $R clean -fdq' EXIT
 cd $V
 for P in "$@"; do
   out=$(VERIF_SEED=${VERIF_SEED:-1} ./check $P --budget $B 2>&1)
